@@ -67,6 +67,13 @@ theorem coinsOf_perm_book {p : Params} {own : Own} {s : Store} {B : Book} (w : W
     rw [this]
     exact List.Nodup.sublist (List.Sublist.map _ List.filter_sublist) hL.keys
 
+/-- the same from the address-free agreement `AgreeM` (what `Inv` provides) -/
+theorem coinsOf_perm_bookM {p : Params} {own : Own} {s : Store} {B : Book} (w : Wid)
+    (hWF : KeysNodup s.unspent) (hA : AgreeM s B) (hL : Loc p own B) :
+    (coinsOf s w).Perm ((B.L.filter (listedU w)).map (coinU p)) :=
+  coinsOf_perm_book (B := { B with addrs := fun k => AMap.get s.addrs k }) w hWF hA.toAgree
+    (hL.congrM (eqM_withAddrs B _))
+
 -- ------------------------------------------------------------------ hypotheses
 
 /-- the hypotheses of the observation theorems: the invariant, a well-formed unspent index, a valid
@@ -207,7 +214,7 @@ theorem coins_perm (H : ObsHyp c s chain) (w : Wid) :
     ((coinsOf s w).map (obsM s.syncedTo)).Perm
       ((utxosOf c.own chain w).map (obsS c.p (chain.length - 1))) := by
   obtain ⟨hL, _⟩ := loc_bookOf (p := c.p) H.valid
-  have hp := (coinsOf_perm_book w H.wf H.inv.agree hL).map (obsM s.syncedTo)
+  have hp := (coinsOf_perm_bookM w H.wf H.inv.agree hL).map (obsM s.syncedTo)
   rw [utxosOf_book c.p, List.map_map]
   rw [List.map_map] at hp
   have : List.map (obsM s.syncedTo ∘ coinU c.p) ((bookOf c.p c.own chain).L.filter (listedU w)) =
